@@ -54,7 +54,12 @@ pub fn until_next_unindented(input: &str, at_least_until: usize, fallback_len: u
 
     // No match found, use fallback. Leading line breaks are kept: the caller numbers the
     // lines of the excerpt starting from the line of its first byte.
-    input[..input.len().min(fallback_len)].trim_end()
+    // `fallback_len` counts bytes: do not cut a multi-byte character in two.
+    let mut end = input.len().min(fallback_len);
+    while !input.is_char_boundary(end) {
+        end -= 1;
+    }
+    input[..end].trim_end()
 }
 
 pub fn hex_to_bools(c: char) -> [bool; 4] {
